@@ -39,11 +39,11 @@ macro_rules! q_runner {
             let mut res = vec![];
             {
                 let (tx, rx) = unbounded::<(u32, Result<(), u32>)>();
-                let mut outputs = crate::gen_c39::$m::run::EmbeddedOutputs {
+                let mut outputs = hv_net_gen::gen_c39::$m::run::EmbeddedOutputs {
                     errors: |x: (u32, u32)| e.borrow_mut().push(x),
                     quorum: |k: u32| q.borrow_mut().push((k, 0)),
                 };
-                let mut flow = crate::gen_c39::$m::run(rx, &mut outputs);
+                let mut flow = hv_net_gen::gen_c39::$m::run(rx, &mut outputs);
                 let rt = tokio::runtime::Builder::new_current_thread().build().unwrap();
                 let local = tokio::task::LocalSet::new();
                 for b in batches {
@@ -66,11 +66,11 @@ macro_rules! w_runner {
             let mut res = vec![];
             {
                 let (tx, rx) = unbounded::<Resp>();
-                let mut outputs = crate::gen_c39::$m::run::EmbeddedOutputs {
+                let mut outputs = hv_net_gen::gen_c39::$m::run::EmbeddedOutputs {
                     errors: |x: (u32, u32)| e.borrow_mut().push(x),
                     quorum: |x: (u32, u32)| q.borrow_mut().push(x),
                 };
-                let mut flow = crate::gen_c39::$m::run(rx, &mut outputs);
+                let mut flow = hv_net_gen::gen_c39::$m::run(rx, &mut outputs);
                 let rt = tokio::runtime::Builder::new_current_thread().build().unwrap();
                 let local = tokio::task::LocalSet::new();
                 for b in batches {
@@ -133,8 +133,8 @@ fn run_join(ticks: &[JTick]) -> Vec<Vec<(u32, (u32, u32))>> {
     {
         let (rtx, rrx) = unbounded::<(u32, u32)>();
         let (mtx, mrx) = unbounded::<(u32, u32)>();
-        let mut outputs = crate::gen_c39::join::run::EmbeddedOutputs { joined: |x: (u32, (u32, u32))| out.borrow_mut().push(x) };
-        let mut flow = crate::gen_c39::join::run(mrx, rrx, &mut outputs);
+        let mut outputs = hv_net_gen::gen_c39::join::run::EmbeddedOutputs { joined: |x: (u32, (u32, u32))| out.borrow_mut().push(x) };
+        let mut flow = hv_net_gen::gen_c39::join::run(mrx, rrx, &mut outputs);
         let rt = tokio::runtime::Builder::new_current_thread().build().unwrap();
         let local = tokio::task::LocalSet::new();
         for (r, m) in ticks {
